@@ -11,13 +11,14 @@ use crate::json::J;
 use crate::model::*;
 use crate::rng::Rng;
 
-pub const RULE: &str = "case = (scoring matrix with finite non-wildcard entries, sequence). Matrices: log-odds (-inf wildcard), arbitrary finite incl. a finite wildcard column above/below the row range, small integers, few-valued, flat rows, zero wildcard column; widths 1..40 biased to widths whose rounded-up cells sum above 255. Sequences contain the consensus word (planted several times, also next to wildcards), the anti-consensus word, wildcards and random background. For EVERY valid position and every arm (avx2 saturating kernel, generic, sse2, dispatch forced to each arm and unforced, DiscreteMatrix::score_position) the u8 score must be >= dm.scale(real score of that position) and >= dm.scale(t) for thresholds t <= real score. Non-trivial = at least one position whose pre-saturation byte sum exceeds 255; distinct = distinct (matrix, sequence).";
+pub const RULE: &str = "case = (scoring matrix with finite non-wildcard entries, sequence). Matrices: log-odds (-inf wildcard), arbitrary finite incl. a finite wildcard column above/below the row range, small integers, few-valued, flat rows, zero wildcard column; widths 1..40 biased to widths whose rounded-up cells sum above 255. Sequences contain the consensus word (planted several times, also next to wildcards), the anti-consensus word, wildcards and random background. For EVERY valid position and every arm (avx2 saturating kernel, generic, sse2, dispatch forced to each arm and unforced, DiscreteMatrix::score_position) the u8 score must be >= dm.scale(real score of that position) and >= dm.scale(t) for thresholds t <= real score. One case in eight drives scanner reconfiguration histories on the saturating arms (threshold() / block_size() called between next() calls, then next() until None): with the verif-hooks row log every position found by a block scored under the threshold then in effect must be yielded (a stale byte threshold loses hits). Non-trivial = at least one position whose pre-saturation byte sum exceeds 255; distinct = distinct (matrix, sequence).";
 
 pub const REQUIRED: &[&str] = &[
     "arm.avx2", "arm.generic", "arm.sse2", "arm.dispatch[generic]", "arm.dispatch[sse2]", "arm.dispatch[avx2]",
     "arm.dispatch[auto]", "arm.score_position", "arm.generic.protein", "class.presaturation_sum>255",
     "class.wildcard_in_window", "class.L=M_or_M+1", "scanner.own_score_threshold", "class.finite_wildcard_above_row_min", "class.consensus_planted", "class.flat_matrix",
     "dispatch_forced.generic", "dispatch_forced.sse2", "dispatch_forced.avx2",
+    "class.history", "class.history.threshold_lowered", "class.history.threshold_raised", "class.history.hits_yielded",
 ];
 
 fn gen_c08_matrix(rng: &mut Rng, k: usize, m: usize, fam: usize) -> (Vec<Vec<f32>>, &'static str) {
@@ -364,11 +365,31 @@ fn run_protein(case: u64, rng: &mut Rng, rep: &mut Report) {
     }
 }
 
+/// consequence clause under reconfiguration: the byte threshold must always be the image of the
+/// threshold in effect - a scanner whose threshold is changed between next() calls still yields
+/// every position found by the blocks scored afterwards (saturating arms only)
+fn run_history(case: u64, rng: &mut Rng, rep: &mut Report) {
+    let m = *rng.pick(&crate::c02::SCAN_WIDTHS);
+    let l = rng.range(m.max(64), 4000);
+    let inp = loop {
+        let inp = crate::c02::make_scan_input(rng, l, m, false);
+        // the property is about matrices whose non-wildcard entries are finite
+        if inp.rows.iter().all(|r| r[..4].iter().all(|x| x.is_finite())) {
+            break inp;
+        }
+    };
+    for &arm in [Arm::DispAvx2, Arm::DispAuto].iter() {
+        crate::scanhist::history_case(case, rng, rep, &inp, arm, crate::scanhist::Finish::Exhaust, "c08", Some("c08.prefilter_lost_hit"));
+    }
+}
+
 pub fn run(cfg: &Config) -> Report {
     let n = cfg.n(3000, 120_000) as u64;
     run_cases(cfg, n, |case, rng, rep| {
         if case % 8 == 7 {
             run_protein(case, rng, rep)
+        } else if case % 8 == 3 {
+            run_history(case, rng, rep)
         } else {
             run_dna(case, rng, rep)
         }
